@@ -694,8 +694,9 @@ const seqPrelude = `(declare-sort BSeq 0)
 (assert (forall ((b (Array Int Int)) (o Int) (l Int) (o2 Int) (l2 Int)) (! (=> (and (<= o o2) (<= 0 l2) (= (+ o2 l2) (+ o l))) (= (bs_val b o l) (bs_cat (bs_val b o (- o2 o)) (bs_val b o2 l2)))) :pattern ((bs_val b o l) (bs_val b o2 l2)))))
 `
 
-var builtinSpecOrder = []string{"fields_n", "iface_pack", "hexdigl", "hexdigu", "hex2lower", "hex6upper", "utf8enc", "utf8len", "utf8dec", "bs_nth"}
+var builtinSpecOrder = []string{"sortedof", "fields_n", "iface_pack", "hexdigl", "hexdigu", "hex2lower", "hex6upper", "utf8enc", "utf8len", "utf8dec", "bs_nth"}
 var builtinSpecs = map[string]string{
+	"sortedof":   "(declare-fun joinof ((Array Int (Array Int Int)) (Array Int Int) (Array Int Int) Int BSeq) BSeq)",
 	"fields_n":   "(declare-fun fields_n (BSeq) Int)\n(declare-fun fields_b (BSeq) (Array Int (Array Int Int)))\n(declare-fun fields_o (BSeq) (Array Int Int))\n(declare-fun fields_l (BSeq) (Array Int Int))\n(assert (forall ((s BSeq)) (! (<= 0 (fields_n s)) :pattern ((fields_n s)))))",
 	"iface_pack": "(declare-fun iface_pack (Int BSeq) BSeq)",
 	"hexdigl":    "(define-fun hexdigl ((d Int)) Int (ite (< d 10) (+ 48 d) (+ 87 d)))",
